@@ -10,9 +10,12 @@
 (* Negative controls: DropOnAbort = FALSE (the repaired defect: cached inodes kept after *)
 (* an abort or a failed commit), AlwaysWrite = FALSE (a change made to the cached inode   *)
 (* without journalling it: seeded changes of the C10 class). Checked on real runs by      *)
-(* FsStruct (cached inode = disk inode) at every idle snapshot.                           *)
+(* FsStruct (cached inode = disk inode) at every idle snapshot. LookupFirst = TRUE (the   *)
+(* cache slot is looked up BEFORE the inode lock is waited for - a seeded change: the      *)
+(* slot can be evicted and the inode cached afresh while the transaction waits, which then *)
+(* works on a dead copy).                                                                   *)
 EXTENDS Integers, FiniteSets, TLC
-CONSTANTS Inums, Txns, NSlots, MaxVal, DropOnAbort, AlwaysWrite
+CONSTANTS Inums, Txns, NSlots, MaxVal, DropOnAbort, AlwaysWrite, LookupFirst
 
 VARIABLES disk,     \* inum -> committed value
           cache,    \* inum -> value | -1 (not cached)
@@ -23,8 +26,21 @@ Idle == [pc |-> "idle", i |-> 0, copy |-> 0, dirty |-> FALSE, changed |-> FALSE]
 Init == disk = [i \in Inums |-> 0] /\ cache = [i \in Inums |-> -1] /\ lock = [i \in Inums |-> 0] /\ tx = [t \in Txns |-> Idle]
 
 Cached == {i \in Inums : cache[i] # -1}
+(* negative control LookupFirst: the slot is obtained first ("peeked": the transaction holds a pointer to the cached object, *)
+(* or - when it was not cached - to the fresh slot it has just filled in the cache), the lock afterwards                     *)
+Peek(t, i) ==
+  /\ LookupFirst /\ tx[t].pc = "idle"
+  /\ \E ev \in (IF i \in Cached \/ Cardinality(Cached) < NSlots THEN {0} ELSE Cached \ {i}) :
+        cache' = [j \in Inums |-> IF j = i THEN (IF cache[i] # -1 THEN cache[i] ELSE disk[i]) ELSE IF j = ev THEN -1 ELSE cache[j]]
+  /\ tx' = [tx EXCEPT ![t] = [pc |-> "peeked", i |-> i, copy |-> 0, dirty |-> FALSE, changed |-> FALSE]]
+  /\ UNCHANGED <<disk, lock>>
+Acquire(t) ==      \* the lock is granted: the pointer is to the live object, unless the slot was evicted meanwhile ("dead")
+  /\ tx[t].pc \in {"peeked", "dead"} /\ lock[tx[t].i] = 0
+  /\ lock' = [lock EXCEPT ![tx[t].i] = t]
+  /\ tx' = [tx EXCEPT ![t].pc = "held", ![t].copy = IF tx[t].pc = "dead" THEN @ ELSE cache[tx[t].i]]
+  /\ UNCHANGED <<disk, cache>>
 Lock(t, i) ==      \* LockInode + LookupSlot (+ load from the journal when the slot is empty); a full cache evicts some entry
-  /\ tx[t].pc = "idle" /\ lock[i] = 0
+  /\ ~LookupFirst /\ tx[t].pc = "idle" /\ lock[i] = 0
   /\ lock' = [lock EXCEPT ![i] = t]
   /\ \E ev \in (IF i \in Cached \/ Cardinality(Cached) < NSlots THEN {0} ELSE Cached) :
         cache' = [j \in Inums |-> IF j = i THEN (IF cache[i] # -1 THEN cache[i] ELSE disk[i]) ELSE IF j = ev THEN -1 ELSE cache[j]]
@@ -47,8 +63,9 @@ Abort(t) ==
   /\ cache' = IF DropOnAbort /\ tx[t].changed THEN [cache EXCEPT ![tx[t].i] = -1] ELSE cache
   /\ lock' = [lock EXCEPT ![tx[t].i] = 0] /\ tx' = [tx EXCEPT ![t] = Idle] /\ UNCHANGED disk
 Evict(i) ==        \* cache pressure from inodes outside the model
-  /\ cache[i] # -1 /\ cache' = [cache EXCEPT ![i] = -1] /\ UNCHANGED <<disk, lock, tx>>
-Next == (\E t \in Txns : (\E i \in Inums : Lock(t, i)) \/ Modify(t) \/ Journal(t) \/ Commit(t) \/ Abort(t)) \/ (\E i \in Inums : Evict(i))
+  /\ cache[i] # -1 /\ cache' = [cache EXCEPT ![i] = -1] /\ UNCHANGED <<disk, lock>>
+  /\ tx' = [t \in Txns |-> IF tx[t].pc = "peeked" /\ tx[t].i = i THEN [tx[t] EXCEPT !.pc = "dead", !.copy = cache[i]] ELSE tx[t]]
+Next == (\E t \in Txns : (\E i \in Inums : Lock(t, i) \/ Peek(t, i)) \/ Acquire(t) \/ Modify(t) \/ Journal(t) \/ Commit(t) \/ Abort(t)) \/ (\E i \in Inums : Evict(i))
 Spec == Init /\ [][Next]_vars
 
 Coherent == \A i \in Inums : (lock[i] = 0 /\ cache[i] # -1) => cache[i] = disk[i]
